@@ -231,13 +231,16 @@ def _t1_cases(shape: tuple, tier: str) -> list[tuple]:
 
 
 def _work_t1(args: tuple) -> dict:
-    shapes, tier = args
+    shapes, tier, *rest = args
+    flt = rest[0] if rest else None       # replay: one (scheme, root, mapper)
     H = _W["H"]
     profiles = _W["profiles"]
     records, findings, stats = [], [], {"runs": 0, "compared": 0, "documented_exception": 0,
                                         "templ": {}, "kinds": {}, "ekinds": {}}
     for si, (ch, rep) in shapes:
-        for scheme, rootk, leaf in _t1_cases((ch, rep), tier):
+        for scheme, rootk, leaf in _t1_cases((ch, rep), tier if flt is None else "thorough"):
+            if flt is not None and (scheme, rootk) != (flt["scheme"], flt["root"]):
+                continue
             root, nodes, templ = H.build_t1([list(c) for c in ch], list(rep), scheme,
                                             seed=seed(), leaf=leaf, root=rootk)
             interner = H.Interner()
@@ -257,6 +260,8 @@ def _work_t1(args: tuple) -> dict:
                 stats["eq_pairs"] = stats.get("eq_pairs", 0) + npairs
             for pname, prof in profiles.items():
                 if prof.skip or prof.semantic:
+                    continue
+                if flt is not None and not pname.startswith(flt["mapper"]):
                     continue
                 r = H.run_direct(pname, prof, root, interner, case)
                 stats["runs"] += 1
@@ -369,7 +374,8 @@ def _work_ladder(args: tuple) -> dict:
 
 
 def _work_t2(args: tuple) -> dict:
-    shapes, tier = args
+    shapes, tier, *rest = args
+    flt = rest[0] if rest else None
     H = _W["H"]
     profiles = _W["profiles"]
     classes = _W.setdefault("classes", H.discover_mappers())
@@ -384,9 +390,14 @@ def _work_t2(args: tuple) -> dict:
                 root = H.build_t2([list(c) for c in ch], list(rep), variant, seed=seed(),
                                   symbolic=symbolic)
                 case = f"t2/s{si}/{variant}/{'sym' if symbolic else 'int'}"
+                if flt is not None and case != flt["case"]:
+                    continue
                 for ename, fn in entries.items():
-                    if ename in ("generate_loopy", "generate_numpy_like",
-                                 "codegen.preprocess") and (si % 4 != 0 and tier == "quick"):
+                    if flt is not None and flt.get("entry") and ename != flt["entry"]:
+                        continue
+                    if flt is None and ename in (
+                            "generate_loopy", "generate_numpy_like",
+                            "codegen.preprocess") and (si % 4 != 0 and tier == "quick"):
                         continue
                     r = H.run_entry(ename, fn, root, H.Interner(), case, profiles, classes)
                     stats["entry_runs"] += 1
@@ -481,9 +492,16 @@ def main(tier: str, only: dict | None = None) -> int:
         gen["expect"].update(gen3["expect"])
         for k in ("states", "transitions", "finals"):
             gen[k] += gen3[k]
-    if only is not None:
-        shapes = [s for s in shapes if [list(map(list, s[0])), list(s[1])] == only["shape"]]
     indexed = list(enumerate(shapes))
+    flt = None
+    if only is not None:
+        parts_ = only["case"].split("/")
+        flt = {"case": only["case"], "mapper": only.get("mapper", "").split("#")[0],
+               "entry": only.get("entry", ""), "kind": parts_[0]}
+        if parts_[0] in ("t1", "t2"):
+            indexed = [indexed[int(parts_[1][1:])]]
+            if parts_[0] == "t1":
+                flt.update(scheme=parts_[2], root=parts_[3])
     stride = int(os.environ.get("C13_DEBUG_STRIDE", "1"))     # development aid only
     if stride > 1:
         indexed = indexed[::stride]
@@ -498,9 +516,18 @@ def main(tier: str, only: dict | None = None) -> int:
         if only is None:
             a_lad = pool.map_async(_work_ladder, ladders, chunksize=1)
             a_t2 = pool.map_async(_work_t2, [(c, tier) for c in t2chunks], chunksize=1)
-        parts = pool.map_async(_work_t1, [(c, tier) for c in chunks]).get(1700)
-        if only is None:
+            parts = pool.map_async(_work_t1, [(c, tier) for c in chunks]).get(1700)
             parts += a_lad.get(1700) + a_t2.get(1700)
+        elif flt["kind"] == "t1":
+            parts = pool.map_async(_work_t1, [(indexed, tier, flt)]).get(1700)
+        elif flt["kind"] == "t2":
+            parts = pool.map_async(_work_t2, [(indexed, tier, flt)]).get(1700)
+        else:
+            _, lname, scheme = only["case"].split("/")
+            parts = pool.map_async(_work_ladder, [
+                (l, sc, d) for l, sc, d in ladders
+                if (l[0], sc) == (lname, scheme)] or [
+                (l, scheme, depth) for l in H.ladder_shapes(depth) if l[0] == lname]).get(1700)
     records, findings, stats = [], [], {}
     for p in parts:
         records += p["records"]
@@ -578,7 +605,9 @@ def main(tier: str, only: dict | None = None) -> int:
 
 
 def replay(rep: dict) -> int:
-    return main("quick", only=rep["record"])
+    """re-run the case of a replay file (same shape, scheme, root, mapper /
+    entry point) against the current tree"""
+    return main(rep.get("tier", "quick"), only=rep["record"])
 
 
 def selftest(tier: str) -> int:
